@@ -121,6 +121,25 @@ def run(ctx):
             if arm not in ROUTING:
                 ctx.info_note('route_message also delivers in arm %s' % arm)
 
+    # a message for an outstanding remote call: the lookup key identifies the reply pid completely
+    ctx.rule('C19.1-rpc-key', 'the router finds an outstanding remote call by a key that depends on id, serial and creation of the addressed pid: '
+             'a message for a pid that merely shares some of them (an unknown recipient) must not be handed to a waiting caller', floor=1)
+    if B is not None:
+        from ..families import key_fields
+        from .c17 import map_calls
+        rems = map_calls(B, 'pending_rpcs', 'remove') + map_calls(B, 'pending_rpcs', 'get') + map_calls(B, 'pending_rpcs', 'get_mut')
+        ctx.anchor(len(rems) >= 1, ROUTE + ':pending_rpcs lookup')
+        for rb_, rt_ in rems:
+            fs, helpers = key_fields(P, B, rt_['args'][1], 'erltf::types::ExternalPid')
+            want = {'id', 'serial', 'creation'}
+            if fs >= want:
+                ctx.ok('C19.1-rpc-key', 'route_message:lookup', 'key depends on %s' % sorted(fs), ctx.where(B, rb_))
+            elif not fs:
+                ctx.undecided('C19.1-rpc-key', 'route_message:lookup', 'key not traced to the addressed pid')
+            else:
+                ctx.bad('C19.1-rpc-key', 'route_message:lookup', 'the lookup key depends only on %s of the addressed pid (%s ignored): a message for an unknown pid that agrees in those fields is consumed by an outstanding call'
+                        % (sorted(fs), sorted(want - fs)), ctx.where(B, rb_), key='CONST:route-rpc-key:missing:%s' % ','.join(sorted(want - fs)))
+
     # ---------------- loop structure -------------------------------------------------------------------------
     L = ctx.body(LOOP)
     if L is None:
@@ -222,6 +241,63 @@ def run(ctx):
         else:
             ctx.bad('C19.3-exit-classification', v, 'receiver loop does `%s` on Error::%s but must `%s` (%s; %s)' % (got, v, want, how, errs[v]), where,
                     key='EXIT:%s:%s->%s' % (LOOP, v, got))
+
+    # ---------------- clause 5: a tick restarts the wait ------------------------------------------------------------------
+    ctx.rule('C19.5-tick-restarts-wait', 'inside the read loop of the split receive function every read waits for a duration counted from that read (tokio::time::timeout), never against a deadline '
+             'fixed before the loop: otherwise a peer that only ticks runs the receiver into a timeout although it is alive', floor=2)
+    RB = P.B(RECV + '::{closure#0}')
+    if ctx.anchor(RB is not None, RECV + '::{closure#0}'):
+        rcomps = _sccs(RB, RB.live_blocks())
+        reads = [bb for bb, t in RB.calls() if any(n.endswith('read_exact') for n in callee_names(t))]
+        rloop = None
+        for c in rcomps:
+            if len(c) > 1 and any(r_ in c for r_ in reads):
+                rloop = set(c) if rloop is None or len(c) > len(rloop) else rloop
+        if ctx.anchor(rloop is not None, RECV + ':read loop'):
+            k = 0
+            rscope = set(rloop)
+            for x_ in sorted(rloop):
+                rscope |= RB.reachable(x_)
+            for bb, t in RB.calls():
+                names = callee_names(t)
+                if bb not in rscope or not any(n.startswith('tokio::time::') for n in names):
+                    continue
+                nm = names[0].rsplit('::', 1)[1]
+                if nm not in ('timeout', 'timeout_at', 'sleep', 'sleep_until', 'interval_at'):
+                    continue
+                k += 1
+                inst = 'read-loop:%s#%d' % (nm, k)
+                if nm in ('timeout', 'sleep'):
+                    ctx.ok('C19.5-tick-restarts-wait', inst, 'relative wait, restarted on every iteration', ctx.where(RB, bb))
+                    continue
+                # absolute deadline: where is it computed?
+                from ..core import value_path
+                dl = t['args'][0]
+                cur, defbb = dl, None
+                for _ in range(12):
+                    if cur.get('k') not in ('cp', 'mv'):
+                        break
+                    d_ = RB.single_def(cur['pl']['l'])
+                    if d_ is None:
+                        break
+                    defbb = d_[1]
+                    if d_[0] == 't':
+                        break
+                    rv_ = d_[3]['rv']
+                    if rv_['k'] in ('use', 'cast'):
+                        cur = rv_['op']
+                    elif rv_['k'] == 'ref':
+                        cur = {'k': 'cp', 'pl': {'l': rv_['pl']['l']}}
+                    else:
+                        break
+                if defbb is not None and defbb in rloop:
+                    ctx.ok('C19.5-tick-restarts-wait', inst, 'deadline computed inside the loop', ctx.where(RB, bb))
+                elif defbb is None:
+                    ctx.undecided('C19.5-tick-restarts-wait', inst, 'origin of the deadline not found')
+                else:
+                    ctx.bad('C19.5-tick-restarts-wait', inst, 'the read waits against a deadline computed before the loop (bb%d): ticks, which send the loop round again, do not extend it, '
+                            'so a connection whose peer only ticks for longer than the timeout fails with Timeout and the receiver stops' % defbb, ctx.where(RB, bb),
+                            key='DOM:%s:deadline-outside-loop' % RECV)
 
     # ---------------- clause 4: deregistration only after the loop, on every exit ------------------------------------------
     ctx.rule('C19.4-deregister-after-loop', 'connections.remove runs only after the receiver loop has ended, and on every path from a loop exit to the end of the task', floor=1)
